@@ -601,10 +601,8 @@ impl TextResource {
     /// Low-level method to get a textselection, if the text selection is known, its' handle will be set
     /// If you don't care about unbound textselection but only known ones, then use [`Self::known_textselection()`] instead.
     pub fn textselection_by_offset(&self, offset: &Offset) -> Result<TextSelection, StamError> {
-        let (begin, end) = (
-            self.beginaligned_cursor(&offset.begin)?,
-            self.beginaligned_cursor(&offset.end)?,
-        );
+        //resolves the cursors and checks the bounds (0 <= begin <= end <= textlen)
+        let TextSelection { begin, end, .. } = self.textselection_by_offset_unchecked(offset)?;
         let mut handle: Option<TextSelectionHandle> = None;
         if let Some(beginitem) = self.positionindex.0.get(&begin) {
             for (end2, gothandle) in beginitem.begin2end.iter() {
